@@ -232,7 +232,7 @@ class DPPContext(EnvContext):
         """Context cannot be defined by a single node embedding for DPP, hence 0.
         We modify the dynamic embedding instead to capture placed items
         """
-        return embeddings.new_zeros(embeddings.size(0), self.embed_dim)
+        return embeddings.new_zeros(*td.batch_size, self.embed_dim)
 
 
 class PDPContext(EnvContext):
